@@ -11,7 +11,7 @@ CHECKS = {
    note='Trusted: the 1100-line vsched scheduler/signal model; lbzip2 data-race freedom (C12) so that scheduling at synchronisation points is enough; bounds W<=3, deviations as reported in the evidence.'),
  'C03': dict(cat='model_checking', engine='lbzx (E1/E2) + real binary', ref='DESIGN.md §5 C03',
    technique='stateless model checking: exhaustive delay-bounded enumeration of thread interleavings and of read()/write() fragmentation answers on the real code, one-outcome oracle',
-   text='For each (input, level, mode) one expected compressed byte string is fixed; every execution with at most d deviations (scheduling choices and short read()/write() answers share the budget; quick d=2, thorough d=3) for W in 1..3 (4), whole-run fragmentation policies, and the real binary on stdout / FILE operand / fragmented pipe must reproduce exactly that string.',
+   text='For each (input, level, mode) one expected compressed byte string is fixed; every execution under every strict-priority scheduler and with at most d deviations (scheduling choices and short read()/write() answers share the budget; quick d=2, thorough d=3) for W in 1..3 (4), whole-run fragmentation policies, and the real binary on stdout / FILE operand / -c FILE / fragmented pipe (also for inputs smaller than the block size at levels >= 2 whose run-length coding expands) must reproduce exactly that string.',
    note='Trusted: vsched; libbz2 judging that the expected string is a valid compression; bounds as reported.'),
  'C12': dict(cat='model_checking', engine='lbzx tsan variant', ref='DESIGN.md §5 C12',
    technique='happens-before race detectors (own vector-clock detector on clang TSan instrumentation; ThreadSanitizer) as per-execution oracles inside exhaustive bounded schedule enumeration under the controlled scheduler',
@@ -27,15 +27,15 @@ CHECKS = {
    note='Pipe fragmentation is modelled as read() returning fewer bytes than asked; vsched trusted.'),
  'C01': dict(cat='model_checking', engine='codecx (E6) + lbzx batch + lbzx explorer (E1/E2)', ref='DESIGN.md §5 C01',
    technique='bounded-exhaustive enumeration of inputs x block capacities through the real codec chain (round-trip oracle) plus stateless model checking (delay-bounded schedule enumeration) of whole-program compression and decompression runs',
-   text='(a) every string over {a,b} up to length 10 (thorough 13), over {a,b,c} up to 6 (8), run families around the 4/259 limits and every alphabet size, for every block capacity, through collect->encode->transmit->parse->retrieve->decode->emit; (b) the compression corpus (kinds corpus, all levels, both modes, block-boundary families, sweeps) x W, each output decompressed again by lbzip2 with another W; (c) every execution with <= d deviations (quick 2, thorough 3) of compression runs (each distinct output decompressed) and of a decompression run. Oracle: bytes back == input, status 0, stderr empty.',
+   text='(a) every string over {a,b} up to length 10 (thorough 13), over {a,b,c} up to 6 (8), run families around the 4/259 limits and every alphabet size, for every block capacity, through collect->encode->transmit->parse->retrieve->decode->emit; (b) the compression corpus (kinds corpus, all levels, both modes, block-boundary families, sweeps) x W, each output decompressed again by lbzip2 with another W; (c) every execution with <= d deviations (quick 2, thorough 3; scheduling choices and short writes) of compression runs (each distinct output decompressed) and of a decompression run; whole-run write fragmentation in both directions. Oracle: bytes back == input, status 0, stderr empty.',
    note='Unbounded "every input" is decided for the enumerated scopes only; vsched trusted for (b),(c).'),
  'C02': dict(cat='exploration', engine='lbzx batch + bzref inspector (E3) + libbz2', ref='DESIGN.md §5 C02',
    technique='bounded-exhaustive enumeration of inputs/levels/modes through the real compressor; every produced stream walked bit by bit by an independent inspector (reference model of the format) and decoded by libbz2',
-   text='Every stream produced for the compression corpus (all levels, default and --sequential, runs meeting the block end from both sides, alphabet sweep 1..148 forcing the one-table + dummy-table case, length sweep covering every padding amount, all strings over {a,b} to length 7 (10)) is decoded by libbz2 to the input and inspected: header digit, per-block RLE size <= N*100000, block and stream CRCs, no randomisation, primary index, 2..6 tables all complete with lengths 1..20 reached by in-range delta steps, selector counts, no trailing bytes.',
+   text='Every stream produced for the compression corpus (all levels, default and --sequential, runs meeting the block end from both sides, alphabet sweep 1..148 forcing the one-table + dummy-table case, length sweep covering every padding amount, all strings over {a,b} to length 7 (10); half of the multi-worker runs write to an output that takes at most 4093 bytes per write()) is decoded by libbz2 to the input and inspected: header digit, per-block RLE size <= N*100000, block and stream CRCs, no randomisation, primary index, 2..6 tables all complete with lengths 1..20 reached by in-range delta steps, selector counts, no trailing bytes.',
    note='Trusted: bzref inspector (cross-checked with libbz2). Scope: the enumerated inputs.'),
  'C04': dict(cat='model_checking', engine='codecx (E6) + lbzx batch + refpack reference model', ref='DESIGN.md §5 C04',
    technique='explicit enumeration of collect() operation sequences (inputs x capacities x every cut into <= 3 calls) on the real resumable state machine against a reference greedy packer; whole-program block lists against the same reference',
-   text='(a) collect() as a state machine: all strings over small alphabets, run families around 4/259, capacities 1..40, 255..270, 515..525, every cut of the input into up to three calls; after every call consumed count, block-full flag, block bytes and CRC equal the reference packer; canonical (rle_state, continues-run, room) states are counted. (b) whole program: for every (input, level, mode) of the compression corpus the list of (RLE size, CRC) per block equals the reference packing of the whole input (--sequential) or of N*100000-byte pieces (default).',
+   text='(a) collect() as a state machine: all strings over small alphabets, run families around 4/259, capacities 1..40, 255..270, 515..525, every cut of the input into up to three calls; after every call consumed count, block-full flag, block bytes and CRC equal the reference packer; canonical (rle_state, continues-run, room) states are counted. (b) whole program: for every (input, level, mode) of the compression corpus (standard input) and for small FILE operands whose run-length coding is longer than the file (levels 1, 2, 9, both modes) the list of (RLE size, CRC) per block equals the reference packing of the whole input (--sequential) or of N*100000-byte pieces (default).',
    note='Trusted: refpack.c (84 lines, written from the statement); bzref for reading block sizes/CRCs back.'),
  'C05': dict(cat='exploration', engine='bzgen (E4) -> lbzx batch (E1) vs bzref (E3)', ref='DESIGN.md §5 C05',
    technique='bounded-exhaustive differential checking: generator-built streams over every degree of freedom of the format plus all single-bit/truncation mutants, real lbzip2 -d against an independent strict reference decoder',
@@ -62,12 +62,12 @@ CHECKS = {
    text='Streams with the 48-bit pattern planted in selector lists at every bit phase, across input-block boundaries, in trailing data (fake blocks, whole streams, broken streams), after broken streams, and complete decodable blocks planted verbatim inside valid compressed data (carrier blocks); W 1..3 x input block sizes x three canonical schedules, and every execution with <= d deviations (quick 2, thorough 3) for W 2..3. Status and bytes must equal the sequential reference decoding; scheduler counters conserved, heap released. H2 events count candidates created/adopted/discarded/aborted/rejected so vacuity is visible.',
    note='Trusted: vsched, bzref.'),
  'C14': dict(cat='model_checking', engine='codecx (E6)', ref='DESIGN.md §5 C14',
-   technique='explicit-state product construction of mini_dfa with the definitional matcher (complete language equivalence), all 49x256 big_dfa entries, exhaustive placement enumeration for scan()',
-   text='All reachable (mini_dfa state, reference state) pairs agree on prefix length and acceptance; every big_dfa entry equals eight mini_dfa steps; scan() on buffers with the pattern at every bit offset over 101 backgrounds (near misses, repeated prefixes, overlaps), second copies, every start bit 0..64 and skip 0..168: reported position is exactly a real occurrence + 32 bits and no complete occurrence in range is missed.',
+   technique='explicit-state product construction of mini_dfa with the definitional matcher (complete language equivalence), all 49x256 big_dfa entries, exhaustive placement enumeration for scan(); exhaustive priority-order x priority-change-point schedule enumeration of the whole program with a reachability oracle on scanner discoveries',
+   text="All reachable (mini_dfa state, reference state) pairs agree on prefix length and acceptance; every big_dfa entry equals eight mini_dfa steps; scan() on buffers with the pattern at every bit offset over 101 backgrounds (near misses, repeated prefixes, overlaps), second copies, every start bit 0..64 and skip 0..168: reported position is exactly a real occurrence + 32 bits and no complete occurrence in range is missed; whole program (do_scan's loop around scan()): streams with a planted header directly before a genuine one, cut into input blocks of every size 8..68: over all 120 priority orders x one priority-change point the largest number of blocks the parser adopts from the scanner in one execution must equal the number of genuine headers lying wholly inside one input block.",
    note='Complete for the automata; scan() scope = 6..8-word buffers.'),
  'C15': dict(cat='fault_enumeration', engine='bzref field offsets + lbzx batch + explorer', ref='DESIGN.md §5 C15',
    technique='exhaustive single-bit fault enumeration over every stored CRC field of a corpus, whole program, plus delay-bounded schedule enumeration for selected fields',
-   text='Every one of the 32 bits of every stored block CRC and stream CRC of 7 (9) multi-block / multi-stream / odd-alignment / randomised files is flipped; each mutant must give exit status 1 for W in {1,2,4} (and 3, -t) at stock and small input block sizes; first/middle/last CRC of each file additionally under all schedules with <= 1 (2) deviations.',
+   text='Every one of the 32 bits of every stored block CRC and stream CRC of 7 (9) multi-block / multi-stream / odd-alignment / randomised files is flipped; each mutant must give exit status 1 for W in {1,2,4} (and 3, -t) at stock and small input block sizes; every stream CRC and the first/middle/last field of the multi-stream files additionally under every strict-priority scheduler and all schedules with <= 1 (2) deviations at two input-block sizes (a stream CRC followed by another stream is checked while workers are already busy with the next stream).',
    note='Trusted: bzref for field offsets (a wrong offset would make the unflipped control fail).'),
  'C16': dict(cat='fault_enumeration', engine='lbzx explorer with file-system fixtures and file-operation interposition', ref='DESIGN.md §5 C16',
    technique='exhaustive crash-point / fault enumeration: every system-call position x errno, SIGKILL before/after each call, SIGINT/SIGTERM at every scheduling point, combined with scheduling deviations up to a bound; end-state oracle on the directory',
@@ -75,11 +75,11 @@ CHECKS = {
    note='Real main.c/signals.c/process.c code with real file system calls in a scratch directory; kernel signal/I-O semantics are vsched\'s model.'),
  'C17': dict(cat='exploration', engine='lbzx batch with file-system fixtures vs table model', ref='DESIGN.md §5 C17',
    technique='exhaustive configuration-product enumeration against a reference rule table written from the statement/man page',
-   text='Mode x legal subsets of -k/-c/-t/-f x operand type (regular, symlink, hard-linked, directory, missing) x 9 name suffixes x pre-existing output (absent/regular/read-only) x permission bits x timestamps, one fresh directory per case, whole program: action (skip+warn 4 / process / stream), output name, sentinel survival, mode bits, atime/mtime, input removal, output bytes, against a rule table; plus, for skipped operands, every execution with <= 1 (2) deviations (failing stderr at the warning, errno on a file operation, scheduling): nothing that existed may change.',
+   text='Mode x legal subsets of -k/-c/-t/-f x operand type (regular, symlink, hard-linked, directory, missing) x 9 name suffixes (incl. names that are exactly a reserved suffix) x pre-existing output (absent/regular/read-only) x permission bits x timestamps, one fresh directory per case, whole program: action (skip+warn 4 / process / stream), output name, sentinel survival, mode bits, atime/mtime, input removal, output bytes, no descriptor or heap block left at exit, against a rule table; plus, for skipped operands, every execution with <= 1 (2) deviations (failing stderr at the warning, errno on a file operation, scheduling): nothing that existed may change.',
    note='Runs as root: permission-denied cases cannot be produced.'),
  'C18': dict(cat='model_checking', engine='lbzx batch with fixtures + explorer', ref='DESIGN.md §5 C18',
    technique='enumeration of all operand sequences up to depth 2 (3) with a differential oracle (combined invocation vs one invocation per operand), plus delay-bounded schedule enumeration of two-operand runs',
-   text='All sequences of operand kinds (small, multi-block, empty, incompressible, skipped-by-suffix, hard link, missing, corrupt, non-bzip2) to depth 2 (3) in modes compress, compress -u, decompress, -dc, -t, -cdf, W in {1,3}: per-operand outputs and file effects equal those of separate invocations up to the first fatal one, status 1/4/0 rule; two-operand invocations under every schedule with <= d deviations.',
+   text='All sequences of operand kinds (small, multi-block, empty, incompressible, skipped-by-suffix, hard link, missing, directory, output-already-exists, corrupt, non-bzip2 small and multi-buffer) to depth 2 (3) in modes compress, compress -u, compress -k, decompress, -dc, -t, -cdf, W in {1,3}: per-operand outputs and file effects equal those of separate invocations up to the first fatal one, status 1/4/0 rule, no descriptor or heap block left at exit; two-operand invocations under every schedule with <= d deviations.',
    note='Differential: no hand-written expected values.'),
  'C20': dict(cat='exploration', engine='codecx (E6) + bzref inspector + refhuff reference', ref='DESIGN.md §5 C20',
    technique='bounded-exhaustive enumeration of frequency vectors through the real assign_codes() and of every table written for the corpus, against an independent length-limited optimum',
